@@ -230,6 +230,8 @@ def api_shard(res, ci, kind, mode, tier):
                 cpsr = mode | (T << 5) | (aif << 6) | (0x9 << 28) | ((k & 1) << 9) | (0xA << 16)
                 if T:
                     cpsr |= ((it & 3) << 25) | ((it >> 2) << 10)
+                    # CPSR.J: half of the Thumb-state cases are taken from ThumbEE state (J = T = 1); every entry clears J
+                    cpsr |= (aif & 1) << 24
                 regs[ix["cpsr"]] = cpsr
                 regs[ix["R.PC"]] = pc
                 pre = tuple(regs)
